@@ -207,9 +207,18 @@ def check_composition(ctx, rng, wtree):
                 ctx.evals()
                 ctx.count('ast_judged')
                 if exp is not None and got is not exp:
+                    fid = None
+                    if isinstance(got, bool):
+                        from .. import findings
+                        fid = (findings.classify_segment(ast, nm, True, icase, got, fn_mode=True) if mod is F
+                               else findings.classify_path(ast, nm, R.PathSpec(dot=True, icase=icase), got))
+                        if fid is None and mod is G and exp is True and got is False and nm in ('.\n', '..\n') and ast and ast[0][0] != 'lit':
+                            # the `.`/`..` guard of a wildcard at a segment start ends in `$`, which also matches before a final
+                            # newline: the segment `.\n` looks like `.` to it (same mechanism as in C09's classifier)
+                            fid = 'KF-DOLLAR-NEWLINE'
                     ctx.disagree(f'meaning of escapes with RAWCHARS={raw} differs from the AST',
                                  {'pattern': text, 'rawchars': raw, 'name': nm, 'expected': exp, 'observed': got,
-                                  'api': mod.__name__, 'forcewin': icase, 'mode': 'composition'})
+                                  'api': mod.__name__, 'forcewin': icase, 'mode': 'composition'}, fid)
                     break
     ctx.mark_nontrivial(('composition', text))
     if ctx.cases % 50 == 0:
